@@ -804,7 +804,7 @@ def _r24d(chk, repo, mod) -> None:
                         "a catch-all in the runners neither hands the caught exception to the shared funnel nor returns it in the DelayedException carrier: "
                         "user errors raised while linting a file would be swallowed here", detail=f"{q}: catch-all feeds funnel")
     chk.count("R24d.catch_alls", n_catch)
-    chk.floor("R24d.catch_alls", 3)
+    chk.floor("R24d.catch_alls", 2)  # the main-process one is required by (3) below, as a violation rather than a vanished anchor
     # (3) the carrier is re-raised into the funnel in the main process
     run = repo.fn(RUNNER, "ParallelRunner.run")
     rcfg = cfg_of(run)
